@@ -262,6 +262,22 @@ def apalache(module, init, inv, length, wd, cinit=None, timeout=1800, mutate=Non
     return m.group(1)
 
 
+def tlaps(module, wd, timeout=1800, threads=4, tag="tlaps"):
+    """Run tlapm on spec/<module>.tla; returns the number of obligations proved (all of them) or raises ToolError."""
+    d = os.path.join(wd, tag)
+    os.makedirs(d, exist_ok=True)
+    shutil.copy(os.path.join(SPEC, module + ".tla"), d)
+    try:
+        p = subprocess.run(["tlapm", "--threads", str(threads), "--cleanfp", module + ".tla"], cwd=d, timeout=timeout,
+                           stdout=subprocess.PIPE, stderr=subprocess.STDOUT, text=True)
+    except subprocess.TimeoutExpired:
+        raise ToolError(f"tlapm timed out on {module}")
+    m = re.search(r"All (\d+) obligations? proved", p.stdout)
+    if not m:
+        raise ToolError(f"tlapm did not prove {module}: " + p.stdout[-800:])
+    return int(m.group(1))
+
+
 def require_mc_ok(res, what):
     if not res["ok"]:
         tail = "\n".join(l for l in res["out"].splitlines()
